@@ -221,7 +221,18 @@ def check_aux_entry_points(out, facts):
                 why.append('a path ends in %s' % p[-1][0])
                 continue
             app = [e for e in p if e[0] == 'MUTCALL' and e[1] in ('extend', 'extend_from_slice', 'write', 'append')]
-            enc = [e for e in app if any(isinstance(strip(a), tuple) and strip(a)[0] == 'cbarg' and sym.vstr(strip(a)[2]).lstrip('&*') == value_param for a in e[3][1:])]
+            def whole_slice(a):
+                # the callback's slice itself, or an iterator over all of it
+                a = strip(a)
+                for _ in range(6):
+                    if isinstance(a, tuple) and a and a[0] == 'call' and a[1] in ('iter', 'into_iter', 'copied', 'cloned', 'as_ref', 'deref', 'as_slice', 'borrow') and a[3]:
+                        a = strip(a[3][0])
+                    elif isinstance(a, tuple) and a and a[0] in ('ref', 'deref'):
+                        a = strip(a[1])
+                    else:
+                        break
+                return isinstance(a, tuple) and a and a[0] == 'cbarg' and sym.vstr(strip(a[2])).lstrip('&*') == value_param
+            enc = [e for e in app if any(whole_slice(a) for a in e[3][1:])]
             if len(enc) != 1:
                 why.append('a path appends the encoding of `%s` %d time(s)' % (value_param, len(enc)))
                 continue
